@@ -43,10 +43,50 @@ FreeE(e) ==
     [] e[1] = "call" -> {e[2]} \cup UNION {FreeE(e[3][k]) : k \in DOMAIN e[3]}
     [] e[1] = "lambda" -> FreeE(e[2]) \ {"p1"}
     [] e[1] = "lcomp" -> (FreeE(e[2]) \ {"v"}) \cup FreeE(e[3])
+    [] e[1] \in {"split", "dict0", "noguard"} -> {}                       \* second family of ProgGen.tla
+    [] e[1] = "mx" -> FreeE(e[2]) \cup UNION {FreeE(e[4][k]) : k \in DOMAIN e[4]}
+    [] e[1] = "slice" -> FreeE(e[2])
+
+(* second family: names a pattern binds / user classes it names *)
+RECURSIVE PCaps(_)
+PCapsSeq(q) == UNION {PCaps(q[k]) : k \in DOMAIN q}
+PCaps(p) ==
+  CASE p[1] = "pcap" -> {p[2]}
+    [] p[1] = "pseq" -> PCapsSeq(p[3])
+    [] p[1] = "pstar" -> PCapsSeq(p[2]) \cup (IF p[3] = "_" THEN {} ELSE {p[3]}) \cup PCapsSeq(p[4])
+    [] p[1] = "pmap" -> UNION {PCaps(p[2][k][2]) : k \in DOMAIN p[2]} \cup (IF p[3] = "" THEN {} ELSE {p[3]})
+    [] p[1] = "pcls" -> PCapsSeq(p[3]) \cup UNION {PCaps(p[4][k][2]) : k \in DOMAIN p[4]}
+    [] p[1] = "pas" -> PCaps(p[2]) \cup {p[3]}
+    [] OTHER -> {}
+RECURSIVE PClasses(_)
+PClassesSeq(q) == UNION {PClasses(q[k]) : k \in DOMAIN q}
+PClasses(p) ==
+  CASE p[1] = "pseq" -> PClassesSeq(p[3])
+    [] p[1] = "pstar" -> PClassesSeq(p[2]) \cup PClassesSeq(p[4])
+    [] p[1] = "pmap" -> UNION {PClasses(p[2][k][2]) : k \in DOMAIN p[2]}
+    [] p[1] = "pcls" -> {p[2]} \cup PClassesSeq(p[3]) \cup UNION {PClasses(p[4][k][2]) : k \in DOMAIN p[4]}
+    [] p[1] = "por" -> PClasses(p[2]) \cup PClasses(p[3])
+    [] p[1] = "pas" -> PClasses(p[2])
+    [] OTHER -> {}
+CasesReads(cs) ==
+  UNION {((FreeE(cs[k][2]) \cup FreeE(cs[k][3])) \ PCaps(cs[k][1])) \cup PClasses(cs[k][1]) : k \in DOMAIN cs}
+SimpleReads(s) ==         \* the one-line mutation statements
+  CASE s[1] = "setitem" -> FreeE(s[2]) \cup FreeE(s[4])
+    [] s[1] = "delitem" -> FreeE(s[2])
+    [] s[1] = "setattr" -> FreeE(s[2]) \cup FreeE(s[4])
+    [] s[1] = "augadd" -> FreeE(s[2]) \cup FreeE(s[3])
+    [] s[1] = "mcall" -> FreeE(s[2]) \cup UNION {FreeE(s[4][k]) : k \in DOMAIN s[4]}
+    [] s[1] = "expr" -> FreeE(s[2])
+MutKinds == {"setitem", "delitem", "setattr", "augadd", "mcall", "expr"}
 
 (* names a statement reads, when executed or when what it defines is called later *)
 StmtReads(s) ==
-  CASE s[1] = "assign" -> FreeE(s[3])
+  CASE s[1] \in MutKinds -> SimpleReads(s)
+    [] s[1] = "mdef" -> (UNION {SimpleReads(s[5][k]) : k \in DOMAIN s[5]} \cup FreeE(s[6]) \cup FreeE(s[7])
+                         \cup FreeE(s[8])) \ {"p1", "p2", "ps"}
+    [] s[1] = "match" -> FreeE(s[3]) \cup CasesReads(s[4])
+    [] s[1] = "matchdef" -> (FreeE(s[5]) \cup CasesReads(s[6]) \cup FreeE(s[7])) \ {"p1", "p2", "ps"}
+    [] s[1] = "assign" -> FreeE(s[3])
     [] s[1] = "if" -> FreeE(s[2]) \cup FreeE(s[4]) \cup FreeE(s[5])
     [] s[1] = "ifonly" -> FreeE(s[2]) \cup FreeE(s[4]) \cup {s[3]}
     [] s[1] = "try" -> FreeE(s[3]) \cup FreeE(s[4])
@@ -57,7 +97,12 @@ StmtReads(s) ==
          \cup (UNION {FreeE(s[6][k][2]) : k \in DOMAIN s[6]} \ {"p1", "self"})
          \cup (UNION {FreeE(s[7][k][2]) : k \in DOMAIN s[7]} \ {"self"})
 
-Binds(s) == IF s[1] \in {"if", "ifonly"} THEN s[3] ELSE s[2]
+(* the name a statement binds; a mutation statement "binds" the name the mutated object is reached *)
+(* from (the object that name holds is different afterwards); an expression statement binds none   *)
+RootOf(pl) == IF pl[1] = "name" THEN pl[2] ELSE pl[2][2]
+Binds(s) == IF s[1] \in {"if", "ifonly"} THEN s[3]
+            ELSE IF s[1] = "expr" THEN ""
+            ELSE IF s[1] \in MutKinds THEN RootOf(s[2]) ELSE s[2]
 
 (* names reachable from the names in R: closed under "read by a statement that binds a reached name" *)
 RECURSIVE ReachFrom(_, _)
